@@ -169,7 +169,7 @@ def build(spec):
     return b"".join(parts), parts
 
 
-def cut_sets(stream, parts, mode):
+def cut_sets(stream, parts, mode, compositions=True):
     """segmentations as sorted tuples of cut offsets (0 < c < len); () is whole delivery"""
     n = len(stream)
     if n < 2:
@@ -206,12 +206,12 @@ def cut_sets(stream, parts, mode):
         two = allpos if n <= 48 else bpos
         for c in itertools.combinations(two, 2):
             add(c)
-        if n <= 14:  # every composition
+        if n <= 14 and compositions:  # every composition
             for k in range(3, n):
                 for c in itertools.combinations(allpos, k):
                     add(c)
         else:
-            for c in itertools.combinations(bpos[:14], 3):
+            for c in itertools.combinations(bpos[:10], 3):
                 add(c)
     return res
 
@@ -389,7 +389,7 @@ def run(ctx):
     per = 48
     for s in sp:
         stream, parts = build(s)
-        cs = cut_sets(stream, parts, mode)
+        cs = cut_sets(stream, parts, mode, compositions=s[1] in ("eager_ok", "eager_late"))
         nseg += len(cs)
         # the whole-stream run is the first element of the first slice; later slices recompute it for the differential
         for i in range(0, len(cs), per):
@@ -398,7 +398,7 @@ def run(ctx):
     ctx.bounds = {
         "configs": list(CONFIGS), "strategies": STRATEGIES, "greetings": list(GREET), "auth": list(AUTH), "requests": list(REQ),
         "trailing": list(TRAIL), "streams": len(sp), "segmentations": nseg,
-        "cuts": "whole, every single cut, 1-byte segments, " + ("every pair of cuts (streams <= 48 bytes; field-boundary pairs/triples beyond), every composition of streams <= 14 bytes" if ctx.thorough else "pairs of cuts at field boundaries +-2 and in the first 7 bytes"),
+        "cuts": "whole, every single cut, 1-byte segments, " + ("every pair of cuts (streams <= 48 bytes; field-boundary pairs beyond), triples of the first 10 boundary cuts, every composition of streams <= 14 bytes (strategies eager_ok and eager_late)" if ctx.thorough else "pairs of cuts at field boundaries +-2 and in the first 7 bytes"),
     }
     ctx.log("%d streams, %d runs, %d work items" % (len(sp), nseg, len(items)))
     par.pmap_tally(chunk_fn, items, ctx.tally, nchunks=min(len(items), 512))
